@@ -9,7 +9,7 @@ from selftest.cases import CASES
 case = [c for c in CASES if c["name"] == sys.argv[1]][0]
 d, dst = make_copy()
 try:
-    edits = [(case["file"], case["old"], case["new"])] + [(m["file"] if "file" in m else case["file"], m["old"], m["new"]) for m in case.get("more", [])]
+    edits = [(case["file"], case["old"], case["new"])] + list(case.get("more", []))
     for f, old, new in edits:
         p = os.path.join(dst, f)
         s = open(p).read()
